@@ -3,11 +3,13 @@
   * QuadraticBezier.tOfPoint: the two generated `quadraticRoots` calls (coefficients from the generated
     `quad_tOfPoint_coeffs`), the emptiness test and the double loop matching roots within 2e-7;
   * CubicBezier.tOfPoint: best of the regular samples, then the bracket-halving loop (the pinned code
-    measured `rdist` at *lower*, so the upper candidate was never taken: repaired, F21).
+    measured `rdist` at *lower*, so the upper candidate was never taken: repaired, F21); since F23 the
+    regular samples are merged with a uniform grid of 65 parameters.
   `dist` is the distance from the query point to the curve's point at a parameter (a parameter here).
 -/
 import BezierVerif.Gen.Roots
 import BezierVerif.Model.Seg
+import Mathlib.Data.List.Dedup
 
 namespace Lookup
 variable {K : Type} [Field K] [LinearOrder K] [IsStrictOrderedRing K]
@@ -49,11 +51,21 @@ def refine (dist : K → K) (prec : K) (st : K × Option K) : K × Option K :=
 /-- the precisions the `while precision > 1e-5` loop goes through: 1/100, 1/200, … (11 rounds) -/
 def precisions : List K := (List.range 11).map fun k => (1 : K) / 50 / (2 : K) ^ (k + 1)
 
-/-- CubicBezier.tOfPoint over a given list of regular sample parameters -/
+/-- CubicBezier.tOfPoint over a given list of sample parameters -/
 def cubicTOfPoint (dist : K → K) (samples : List K) : K :=
   let start : K × Option K := match bestSample dist samples none with
     | none => (-1, none)          -- bestT = -1, bestDist = inf
     | some (t, d) => (t, some d)
   (precisions.foldl (fun st p => refine dist p st) start).1
+
+/-- the uniform grid `i / 64.0 for i in range(65)` (exact in binary floating point) -/
+def grid : List K := (List.range 65).map fun (i : Nat) => (i : K) / 64
+
+/-- `sorted(set(samples).union(grid))` (F23): ascending, every value once -/
+def mergeGrid (regular : List K) : List K :=
+  ((regular ++ grid).mergeSort (fun a b => decide (a ≤ b))).dedup
+
+/-- CubicBezier.tOfPoint given what `regularSampleTValue(50)` returned -/
+def cubicTOfPointFull (dist : K → K) (regular : List K) : K := cubicTOfPoint dist (mergeGrid regular)
 
 end Lookup
